@@ -387,6 +387,14 @@ pub enum AddressKind {
 impl CompletedResult<'_> {
     pub fn into_scalar<T: Copy>(self, address_kind: AddressKind) -> Result<T, Error> {
         let (_, bytes) = self.into_raw_bytes(mem::size_of::<T>(), address_kind)?;
+        // result may be shorter than expected (empty location for optimized out data,
+        // register or literal piece smaller than T)
+        if bytes.len() < mem::size_of::<T>() {
+            return Err(TypeBinaryRepr(
+                std::any::type_name::<T>(),
+                bytes.to_vec().into_boxed_slice(),
+            ));
+        }
         Ok(scalar_from_bytes(&bytes))
     }
 
